@@ -118,6 +118,36 @@ def solve(Y, P, R):
     return [[M[r][R + i] for r in range(R)] for i in range(len(P))]
 
 
+def mat_rank(M):
+    M = [[F(x) for x in row] for row in M]
+    rk = 0
+    rows, cols = len(M), (len(M[0]) if M else 0)
+    for c in range(cols):
+        piv = next((r for r in range(rk, rows) if M[r][c] != 0), None)
+        if piv is None:
+            continue
+        M[rk], M[piv] = M[piv], M[rk]
+        for r in range(rows):
+            if r != rk and M[r][c] != 0:
+                f = M[r][c] / M[rk][c]
+                M[r] = [a - f * b for a, b in zip(M[r], M[rk])]
+        rk += 1
+    return rk
+
+
+def unfolding_ranks(shape, X):
+    """exact rank of every mode-n unfolding of the F-order value list X"""
+    subs = all_subs(shape)
+    out = []
+    for n in range(len(shape)):
+        cols = {}
+        for i, x in zip(subs, X):
+            key = tuple(i[:n] + i[n + 1:])
+            cols.setdefault(key, [0] * shape[n])[i[n]] = x
+        out.append(mat_rank([list(v) for v in cols.values()]))
+    return out
+
+
 def cond_ratio(Y):
     """|det Y| / prod diag(Y) in [0,1] for a Gram-type matrix (1 = orthogonal columns); 0 if some diagonal is 0"""
     dg = F(1)
